@@ -182,6 +182,18 @@ CLAIMED["C19"] = dict(
     technique="jaxpr symbolic execution + polynomial hypotheses + z3 QF_LRA (XL certificates); z3 QF_UFLRA bounded unrolling of the loop; float64 replay",
     design="§4 C19")
 
+CLAIMED["C15"] = dict(
+    text="Bounded symbolic relational check (pytree and permutation clauses only; the jit/vmap clauses are outside this "
+         "technique, see the check's 'outside' list and DESIGN.md): the real solver step, both error estimators (acceptance "
+         "quantity incl. contraction rate and reference), a 2-step fixed-grid solve and the jet initialisation routines are "
+         "traced twice in one jaxpr -- once with the state as a dict pytree, once with the flattened array -- on the SAME "
+         "symbolic state/field; every returned array, the unflattened means and standard deviations and the output structure "
+         "(leading time axis) must coincide as polynomials. Swapping the two components of a d=2 problem must swap the "
+         "solution (isotropic, block-diagonal; dense in the thorough tier). Identities are decided by z3 (syntactic equality "
+         "confirmed by the solver), violations replayed in float64 on the real code.",
+    technique="jaxpr symbolic execution of two presentations in one trace + z3 identity / QF_LRA queries; float64 replay",
+    design="§4 C15")
+
 NOT_APPLICABLE = {
     "C01": "Global error vs the true (transcendental) ODE solution and observed convergence rates in floating point "
            "cannot be expressed as a bounded real-arithmetic query over the code; its mechanisms are decided under C02, C06, C07, C09.",
